@@ -200,7 +200,7 @@ class World:
         for fn in sorted(os.listdir(self.dir)):
             if fn.endswith('.vc'):
                 self.vc = parse_vc(os.path.join(self.dir, fn), self.vc, self.features)
-        self.counters = {k: 0 for k in ['R1', 'R2', 'R3', 'R4', 'R5', 'R6', 'R7', 'R10', 'A1', 'A2', 'A3', 'A4']}
+        self.counters = {k: 0 for k in ['R1', 'R2', 'R3', 'R4', 'R5', 'R6', 'R7', 'R10', 'R11', 'A1', 'A2', 'A3', 'A4']}
         self.fnmap = []       # per emitted fn: dict
         self.uncontracted = []
         self.used_contracts = set()
@@ -1014,6 +1014,8 @@ class World:
         ground obligations `<found text> == <expected text>`; any OTHER serde attribute on an extracted type (rename, default,
         skip, flatten ..) may change what is stored or decoded, so every function that mentions the type is undecided."""
         cfgs = self.cfg.get('serde_attrs') or {}
+        if cfgs.get('ignore'):
+            return ''   # dependency worlds: the functions verified there do not touch (de)serialisation
         exp = cfgs.get('expected', {})
         name = it['name']
         found = {}
@@ -1270,6 +1272,13 @@ class World:
             if old not in head:
                 raise Inconclusive(f'lost anchor: signature text {old!r} not found in {cname}')
             head = head.replace(old, new)
+        if 'R11' in c.opts:
+            # R11: `mut self` (a by-value receiver bound mutably) is outside Verus's subset: the receiver is taken as `self`
+            # and moved into a mutable local at the start of the body, which the body then uses instead of `self`
+            if not re.search(r'\(\s*mut self\b', head):
+                raise Inconclusive(f'lost anchor: {cname} has no `mut self` receiver (option R11)')
+            head = re.sub(r'\(\s*mut self\b', '(self', head, count=1)
+            self.counters['R11'] = self.counters.get('R11', 0) + 1
         # contract text
         req = c.requires
         ens = c.ensures
@@ -1543,6 +1552,10 @@ class World:
                 raise Inconclusive(f'lost anchor: body text {old!r} not found in {cname}')
             self.counters['R4'] += body.count(old.encode())
             body = body.replace(old.encode(), new.encode())
+        if 'R11' in c.opts:
+            inner = body[1:] if body[:1] == b'{' else body
+            inner = re.sub(rb'(?<![\w.:])self\b', b'vf_self', inner)
+            body = b'{ let mut vf_self = self;' + inner
         for o in c.opts:
             if o == 'R4':
                 n0 = body.count(b'Box::new(')
